@@ -435,6 +435,31 @@ func c15Trees(t core.Tier) []c15Tree {
 			}
 		}
 	}
+	// number literals at and beyond the edge of the integers (an integer literal
+	// that does not fit 64 bits is a float literal), with leading zeros, with a
+	// fraction written in several ways
+	{
+		iv := func() *ref.Expr { return ref.Call("int", ref.Value()) }
+		var lits []*ref.Expr
+		for _, n := range []int64{9223372036854775807, 9223372036854775806, 4611686018427387904, 9007199254740993} {
+			lits = append(lits, ref.N(n))
+		}
+		for _, t := range []string{"9223372036854775808", "9223372036854775809", "18446744073709551616", "100000000000000000000", "1.50", "007.5", "0.0625", "1000000.0"} {
+			lits = append(lits, ref.FlText(t))
+		}
+		for _, l := range lits {
+			for _, e := range []*ref.Expr{
+				ref.Bin("<", iv(), l.Clone()), ref.Bin("=", l.Clone(), iv()), ref.In(iv(), l.Clone(), ref.N(1)), ref.Btw(iv(), ref.N(0), l.Clone()),
+				ref.Bin(">", ref.Bin("+", iv(), l.Clone()), ref.N(0)), ref.Bin("=", ref.Call("str", l.Clone()), ref.S("x")),
+			} {
+				k := canonTree(e) + "|" + e.Render()
+				if !seen[k] {
+					seen[k] = true
+					out = append(out, c15Tree{e: e, t: 'B'})
+				}
+			}
+		}
+	}
 	// chains of field accesses: every subscript at its own level, in order
 	{
 		js := func() *ref.Expr { return ref.Call("json", ref.Value()) }
